@@ -159,6 +159,23 @@ func (e *exec) Body() {
 	sleepUntil(points[p.Close])
 	n.Close()
 	vmc.Await("writers done", func() bool { return writersDone == 2 })
+	// wire oracle on every transport: whole frames, originated frames with the node's identity
+	// and gapless per-link sequence numbers (heartbeats, stream requests and application
+	// messages share the link's counter), valid signatures with OutKey
+	var key []byte
+	if p.Signed {
+		key = sx.Key
+	}
+	for _, c := range conns {
+		frames, prob := sx.ParseWire(c.Written)
+		if prob != "" {
+			e.problems = append(e.problems, c.Name+": "+prob)
+			continue
+		}
+		if pr := sx.CheckOriginated(frames, 10, 1, true, key, 7); pr != "" {
+			e.problems = append(e.problems, c.Name+": "+pr)
+		}
+	}
 	e.finished = true
 	vmc.Finish()
 }
